@@ -406,12 +406,15 @@ def c06_4(ck, prog):
                                    ('send_one_message', 'bus/dispatch.c', 'connection'),
                                    ('bus_transaction_send_from_driver', 'bus/connection.c', 'connection')):
         f = prog.fn(fname, file)
+        label = destidx
+        if fname == 'send_one_message':
+            destidx = lib.recipient_param(f)
 
         def sinks(ev, ctx, destidx=destidx):
             if ev['ev'] == 'call' and ev['e'].get('callee') == 'bus_transaction_send':
                 return 'bus_transaction_send'
             return None
-        gate = lib.Guard('policy gate(proposed=%s)' % destidx,
+        gate = lib.Guard('policy gate(proposed=%s)' % label,
                          (lambda destidx: lambda c, ctx: c.get('callee') == GATE
                           and is_ref(c['args'][4], destidx) and lib.arg_is_param(c, 5, 'message'))(destidx))
         lib.must_precede(f, r, sinks, [gate])
